@@ -390,6 +390,11 @@ theorem peekIs_lt {rest : Bytes} {i : Nat} {c : UInt8} (h : peekIs rest i c = tr
   have : rest[i]? = some c := by simpa using h
   exact getElem?_some_lt this
 
+theorem isHexPrefix_len {rest : Bytes} (h : isHexPrefix rest = true) : 2 < rest.length := by
+  unfold isHexPrefix at h
+  simp only [Bool.and_eq_true] at h
+  exact peekSat_lt h.2
+
 theorem consumeNumber_ne_crash {rest : Bytes} {p0 : Nat} {np : Bool} :
     consumeNumber rest p0 np ≠ .crash := by
   unfold consumeNumber
@@ -400,9 +405,7 @@ theorem consumeNumber_ne_crash {rest : Bytes} {p0 : Nat} {np : Bool} :
     refine numberLoop_ne_none ?_ ?_ hn
     · split
       · rename_i hh
-        simp only [Bool.and_eq_true, Bool.or_eq_true, beq_iff_eq] at hh
-        have : 1 < rest.length := by
-          rcases hh.2 with h | h <;> exact getElem?_some_lt h
+        have := isHexPrefix_len hh
         omega
       · omega
     · omega
@@ -426,17 +429,15 @@ theorem consumeNumber_ok {rest : Bytes} {p0 : Nat} {np : Bool} {sc : Scan}
   split at h
   · cases h
   · rename_i i isInt hnl
-    have hi0 : (if (rest[0]? == some 48 && (rest[1]? == some 120 || rest[1]? == some 88)) = true then 2 else 0) ≤ rest.length := by
+    have hi0 : (if isHexPrefix rest = true then 2 else 0) ≤ rest.length := by
       split
       · rename_i hh
-        simp only [Bool.and_eq_true, Bool.or_eq_true, beq_iff_eq] at hh
-        have : 1 < rest.length := by
-          rcases hh.2 with h | h <;> exact getElem?_some_lt h
+        have := isHexPrefix_len hh
         omega
       · omega
     have hb := numberLoop_bound hnl hi0
     have hpos : 0 < i := by
-      by_cases hh : (rest[0]? == some 48 && (rest[1]? == some 120 || rest[1]? == some 88)) = true
+      by_cases hh : isHexPrefix rest = true
       · simp only [hh, if_true] at hb; omega
       · simp only [hh] at hnl
         simp only [Bool.false_eq_true, if_false] at hnl
@@ -473,7 +474,6 @@ theorem consumeNumber_ok {rest : Bytes} {p0 : Nat} {np : Bool} {sc : Scan}
         · cases h
       · cases h; split <;> exact key _ (by simp) (by simp)
     · cases h; split <;> exact key _ (by simp) (by simp)
-
 
 theorem identStart_part (c : UInt8) (h : Char.isIdentStart c = true) : Char.isIdentPart c = true := by
   unfold Char.isIdentStart at h
